@@ -182,6 +182,9 @@ class HistoryGen:
             n = rng.randint(0, 6)
             pairs = [(rng.choice(self.universe), self._val())
                      for _ in range(n)]
+            if rng.random() < .06:
+                # the container itself / its own items() as the source
+                return ('update', ((rng.choice(['SELF', 'SELFITEMS']), []),))
             if rng.random() < .12:
                 # the source breaks off half-way: the pairs before the
                 # failure are in, the exception reaches the caller
@@ -206,6 +209,9 @@ class HistoryGen:
                                              'GEN']), ks),))
         if r < 0.93:
             ks = [rng.choice(self.universe) for _ in range(rng.randint(0, 6))]
+            if rng.random() < .08:
+                # the container's own (lazy) key sequence as the operand
+                return (rng.choice(['ior', 'iand']), (('SELFKEYS', []),))
             return ('ior', ((rng.choice(['LIST', 'SET', 'SELF', 'TREESET',
                                          'ITER', 'GEN']), ks),))
         ks = list(dict.fromkeys(
@@ -289,6 +295,12 @@ def materialize(arg, fam, impl, target, model_side):
     tag, payload = arg
     if tag == 'SELF':
         return target
+    if tag == 'SELFKEYS':
+        return target.keys() if not model_side else list(
+            target.sorted_keys())
+    if tag == 'SELFITEMS':
+        return target.items() if not model_side else list(
+            target.sorted_items())
     if tag == 'DICT':
         return dict(payload)
     if tag == 'PAIRS':
